@@ -257,4 +257,82 @@ theorem putR_refines (s : Store) (inv : StoreInv s) (id : Nat) (key : Bytes) (co
                 · simp only [hp, if_false]
                   exact ⟨trivial, by rw [abs_setDb, hins], storeInv_setDb inv id (hput nv).2⟩
 
+/-! ### the reference alone: which calls change what -/
+
+theorem sputR_cases (t : SpecStore) (id : Nat) (key : Bytes) (comp : Nat) (val : Bytes) (fl ph : Nat) :
+    ((sputR t id key comp val fl ph).1 = t ∧ (sputR t id key comp val fl ph).2.isOk = false) ∨
+    (∃ d, (sputR t id key comp val fl ph).1 = ssetDb t id d ∧ (sputR t id key comp val fl ph).2.isOk = true) := by
+  simp only [sputR]
+  repeat' split
+  all_goals first
+    | exact Or.inl ⟨rfl, rfl⟩
+    | exact Or.inr ⟨_, rfl, rfl⟩
+
+theorem sdel_cases (t : SpecStore) (id : Nat) (key : Bytes) (comp : Nat) :
+    (sdel t id key comp).1 = t ∨ (∃ d, (sdel t id key comp).1 = ssetDb t id d ∧ (sdel t id key comp).2 = "del ok") := by
+  simp only [sdel]
+  repeat' split
+  all_goals first
+    | exact Or.inl rfl
+    | exact Or.inr ⟨_, rfl, rfl⟩
+
+theorem smetaSet_cases (t : SpecStore) (id : Nat) (m : Bytes) :
+    (smetaSet t id m).1 = t ∨ (∃ d, (smetaSet t id m).1 = ssetDb t id d ∧ (smetaSet t id m).2 = "mset ok") := by
+  simp only [smetaSet]
+  repeat' split
+  all_goals first
+    | exact Or.inl rfl
+    | exact Or.inr ⟨_, rfl, rfl⟩
+
+theorem sopenDb_cases (t : SpecStore) (id flags : Nat) :
+    (sopenDb t id flags).1 = t ∨
+    ((sopenDb t id flags).1 = { t with dbs := t.dbs ++ [(id, ⟨flags, [], []⟩)] } ∧ (sopenDb t id flags).2 = "db ok") := by
+  simp only [sopenDb]
+  repeat' split
+  all_goals first
+    | exact Or.inl rfl
+    | exact Or.inr ⟨rfl, rfl⟩
+
+theorem sdestroyDb_cases (t : SpecStore) (id : Nat) :
+    (sdestroyDb t id).1 = t ∨
+    ((sdestroyDb t id).1 = { t with dbs := t.dbs.filter (·.1 ≠ id) } ∧ (sdestroyDb t id).2 = "dbdestroy ok") := by
+  simp only [sdestroyDb]
+  repeat' split
+  all_goals first
+    | exact Or.inl rfl
+    | exact Or.inr ⟨rfl, rfl⟩
+
+theorem sgetDb_ssetDb_ne (t : SpecStore) (id j : Nat) (d : SpecDb) (h : j ≠ id) :
+    sgetDb (ssetDb t id d) j = sgetDb t j := by
+  simp only [sgetDb, ssetDb]
+  congr 1
+  induction t.dbs with
+  | nil => rfl
+  | cons x tl ih =>
+    obtain ⟨i, y⟩ := x
+    simp only [List.map_cons, List.find?_cons]
+    by_cases hi : i = id
+    · subst hi
+      have hj : ¬ (i = j) := fun e => h e.symm
+      simp only [if_true, hj, decide_false, ih]
+    · simp only [hi, if_false]
+      rw [ih]
+
+theorem sgetDb_append_ne (t : SpecStore) (id j : Nat) (d : SpecDb) (h : j ≠ id) :
+    sgetDb { t with dbs := t.dbs ++ [(id, d)] } j = sgetDb t j := by
+  simp only [sgetDb]
+  congr 1
+  have hj : ¬ (id = j) := fun e => h e.symm
+  simp [List.find?_append, hj]
+
+theorem sgetDb_filter_ne (t : SpecStore) (id j : Nat) (h : j ≠ id) :
+    sgetDb { t with dbs := t.dbs.filter (·.1 ≠ id) } j = sgetDb t j := by
+  simp only [sgetDb, List.find?_filter]
+  congr 2
+  funext a
+  by_cases hj : a.1 = j
+  · have hi : ¬ (a.1 = id) := fun e => h (by rw [← hj, e])
+    simp [hj, h]
+  · simp [hj]
+
 end IwModel.KvApiSpec
